@@ -1,3 +1,4 @@
+from io import StringIO
 
 from .pair_tabulation import PairTabulation_AbstractBase, Excel_PairTabulation, _r_value_iterator
 
@@ -276,15 +277,19 @@ class ADP_EAMTabulation(SetFL_EAMTabulation):
     """Write the tabulation to the file object `fp`.
 
     :param fp: File object into which data should be written."""
+    # Build the table in memory so that nothing is written to fp if
+    # evaluating a function fails part way through.
+    sbuild = StringIO()
     writeSetFL(
       self.nrho, self.drho, 
       self.nr, self.dr,
       self.eam_potentials,
       self.potentials,
-      out = fp)
+      out = sbuild)
 
-    self._write_dipole(fp)
-    self._write_quadrupole(fp)
+    self._write_dipole(sbuild)
+    self._write_quadrupole(sbuild)
+    fp.write(sbuild.getvalue())
 
 
   def _write_dipole(self, fp):
